@@ -4,6 +4,7 @@ import (
 	"bytes"
 	"fmt"
 	"strings"
+	"sync/atomic"
 
 	"github.com/datastax/go-cassandra-native-protocol/frame"
 	"github.com/datastax/go-cassandra-native-protocol/message"
@@ -64,9 +65,10 @@ func (r *reqSpec) positivelyIdempotent(idempotentGraph bool) bool {
 	return false
 }
 
-var tokenCounter int
+var tokenCounter atomic.Int64
 
-func nextToken() string { tokenCounter++; return fakecass.Token(tokenCounter) }
+// nextToken returns a token that no other request of this process carries (safe for concurrent use).
+func nextToken() string { return fakecass.Token(int(tokenCounter.Add(1))) }
 
 // genStmt draws a DML (or SELECT) statement carrying token, idempotent or not as asked.
 func genStmt(rt *rapid.T, token string, idem bool) stmtSpec {
